@@ -177,6 +177,15 @@ fn mutate_text(rng: &mut Rng, src: &str) -> String {
 }
 
 fn built_text(rng: &mut Rng) -> String {
+    // now and then a debug line table with a very long run of rows that carry an address (more than a 16-bit count can hold)
+    if rng.chance(1, 3000) {
+        let rows = *rng.pick(&[65_535usize, 65_536, 65_537, 70_000]);
+        let mut s = String::with_capacity(rows * 22 + 200);
+        s.push_str("LC-3 OBJ FILE\n\n.TEXT\n3000\n1\n1021\n\n.DEBUG\n# c\n====================\nLINE | ADDR | SOURCE\n");
+        for i in 0..rows { s.push_str(&format!("{i} | {:04X} | x\\n\n", i & 0xFFFF)); }
+        s.push_str(&format!("{rows} | ???? | \n====================\n"));
+        return s;
+    }
     let mut s = String::from("LC-3 OBJ FILE\n\n");
     let n = 1 + rng.usize(5);
     for _ in 0..n {
